@@ -6,9 +6,6 @@ import (
 	"testing"
 )
 
-func runBackoff(rep *Report, rng *rand.Rand, n int) error               { return fmt.Errorf("not implemented") }
-func runRetry(t *testing.T, rep *Report, rng *rand.Rand, n int) error   { return fmt.Errorf("not implemented") }
-func runBreaker(t *testing.T, rep *Report, rng *rand.Rand, n int) error { return fmt.Errorf("not implemented") }
 func runScenarioMode(t *testing.T, mode string, rep *Report, rng *rand.Rand, n int, thorough bool) error {
 	return fmt.Errorf("unknown mode %s", mode)
 }
